@@ -178,7 +178,7 @@ func TestC03Big(t *testing.T) {
 // C07 / C08 in the closed loop with real configuration hashes: sidecars in file mode, one of them with a
 // configuration that differs from the coordinator's in one setting.
 func recDrift(prop string) *vkit.Recorder {
-	r := vkit.Rec(prop, "exploration", "unit Test"+prop+"Loop: closed-loop runs (real coordinator, real sidecars in file mode: each reads a file with the coordinator's content plus per-shard external labels and refuses pushed configuration) in which one shard of the initial fleet runs a file that differs in one other setting (a scrape secret, a relabel regex, an interval), so that by the real configuration hashes it is never in sync; in every cycle of the run no scale request may be lower than that shard's position (C07) and it may not be sent a target update (C08); non-trivial = a run in which a scale change was requested while the drifted shard existed")
+	r := vkit.Rec(prop, "exploration", "unit Test"+prop+"Loop: closed-loop runs (real coordinator, real sidecars in file mode: each reads a file with the coordinator's content plus per-shard external labels and refuses pushed configuration) in which one shard of the initial fleet runs a file that differs in one other setting (a scrape secret, a relabel regex, an interval), so that by the real configuration hashes it is never in sync; in every cycle of the run no scale request may be lower than that shard's position (C07) and it may not be sent a target update (C08); non-trivial = a run in which a scale change was requested while the drifted shard existed; unit TestC07Drain: fault-free closed loops with max-idle-time 1ns, 200ms, 1000h or off in which tail shards are drained: in every cycle no scale request may be lower than the position of a shard whose real sidecar holds targets (in any state) before and after the cycle; with 200ms the run pauses 250ms (twice at most) while a shard has nothing but targets in hand-over, and - like with 1000h / off - no request of a cycle that took less than max-idle-time may be lower than the position of a shard that held targets when the cycle began")
 	r.Assume(loopAssume)
 	return r
 }
@@ -194,4 +194,22 @@ func driftTest(t *testing.T, prop string) {
 }
 
 func TestC07Loop(t *testing.T) { driftTest(t, "C07") }
+
+// TestC07Drain: fault-free closed loops in which idle shards expire at once (max-idle-time 1ns) or never: tail shards
+// are drained and removed while their real sidecars are still handing targets over.
+func TestC07Drain(t *testing.T) {
+	rec := recDrift("C07")
+	rapid.Check(t, func(t *rapid.T) {
+		c := GenCase(t, false)
+		switch rapid.IntRange(0, 3).Draw(t, "idleKind") {
+		case 0, 1:
+			c.Idle = "now"
+		case 2:
+			c.Idle = "mid"
+		}
+		if msg := runLoop(rec, "TestC07Drain", c, "C03", false); msg != "" {
+			t.Fatalf("%s", msg)
+		}
+	})
+}
 func TestC08Loop(t *testing.T) { driftTest(t, "C08") }
